@@ -9,7 +9,7 @@ import z3
 from . import loader, smt
 from .values import *
 from .state import *
-from .engine import LIST_LEN, LIST_ETYPE, OBJ_CLS, MAX_PATHS
+from .engine import LIST_LEN, LIST_ETYPE, OBJ_CLS, MAX_PATHS, etype_id
 from .execu import from_py, LIST_MUTATORS
 from .calls import Calls
 from .contracts import REG, parse_type, type_str
@@ -58,6 +58,8 @@ class Verifier(Calls):
                         st.lver += 1
         saved = self.exc_sink
         self.exc_sink = mine = []
+        # the function this statement belongs to (an inlined callee may leave its frame on `st` itself)
+        fnkey0 = st.frame.fnkey if st.frames else None
         try:
             m = getattr(self, 'st_' + type(stmt).__name__, None)
             if m is None:
@@ -71,7 +73,7 @@ class Verifier(Calls):
         outs = list(outs)
         # ghost code attached to this statement by the contract (witness bookkeeping; never changes real state)
         if outs and isinstance(stmt, (ast.Assign, ast.AugAssign, ast.Expr)):
-            c = REG.fns.get(st.frame.fnkey) if st.frames else None
+            c = REG.fns.get(fnkey0) if fnkey0 is not None else None
             if c is not None and c.ghost_code:
                 gc = c.ghost_code.get(ast.unparse(stmt))
                 if gc:
@@ -797,7 +799,7 @@ class Verifier(Calls):
             argmap[a.vararg.arg] = None
         if c is not None and not c.inline:
             for mexpr in c.modifies:
-                self.add_modifies_entry(mexpr, argmap, acc)
+                self.add_modifies_entry(mexpr, argmap, acc, c)
             if parse_type(c.returns)[0] != 'none' or True:
                 pass
             return
@@ -816,7 +818,27 @@ class Verifier(Calls):
             st2.frames.append(Frame(m, key, parent=len(st.frames) - 1))
             self.collect_writes(loader.strip_doc(fn.body), st2, argmap, False, depth + 1, acc)
 
-    def add_modifies_entry(self, mexpr, argmap, acc):
+    def static_list_type(self, c, expr_ast):
+        "declared element type of the list named by `p.f` / `p` over the callee's parameters (None if unknown)"
+        try:
+            if isinstance(expr_ast, ast.Name):
+                T = parse_type(c.params[expr_ast.id])
+            elif isinstance(expr_ast, ast.Attribute) and isinstance(expr_ast.value, ast.Name):
+                PT = parse_type(c.params[expr_ast.value.id])
+                if PT[0] != 'ref':
+                    return None
+                T = self.field_info(PT[1], expr_ast.attr)[1]
+            else:
+                return None
+        except Exception:
+            return None
+        alts = T[1] if T[0] == 'union' else (T,)
+        ls = [a for a in alts if a[0] == 'list']
+        if len(ls) != 1 or any(a[0] not in ('list', 'none') for a in alts):
+            return None
+        return 'list[%s]::*' % type_str(ls[0][1])
+
+    def add_modifies_entry(self, mexpr, argmap, acc, c=None):
         mexpr = mexpr.strip()
         if mexpr == '*':
             acc['heap'].append(('all', 'callee modifies *', None))
@@ -834,15 +856,34 @@ class Verifier(Calls):
                     return copy.deepcopy(r)
             r = T().visit(copy.deepcopy(e))
             return r if ok[0] else None
+        if '::' in mexpr:
+            acc['heap'].append(('classwide', mexpr, None))
+            return
         if mexpr.endswith('[*]'):
-            acc['heap'].append(('list', None, sub(self.parse_spec(mexpr[:-3]))))
+            # hint: if the receiver cannot be evaluated at the loop head, the write still goes to a list of the
+            # declared element type only
+            hint = self.static_list_type(c, self.parse_spec(mexpr[:-3])) if c is not None else None
+            acc['heap'].append(('list', hint, sub(self.parse_spec(mexpr[:-3]))))
             return
         if mexpr.endswith('{*}'):
             acc['heap'].append(('rec', None, sub(self.parse_spec(mexpr[:-3]))))
             return
         t = self.parse_spec(mexpr)
         if isinstance(t, ast.Attribute):
-            acc['heap'].append(('field', t.attr, sub(t.value)))
+            # the callee's declared parameter class bounds the write when the receiver cannot be evaluated at the
+            # loop head (a local assigned in the loop): only that class's field, not every field of that name
+            hint = None
+            if c is not None and isinstance(t.value, ast.Name) and t.value.id in c.params:
+                try:
+                    PT = parse_type(c.params[t.value.id])
+                    if PT[0] == 'ref':
+                        hint = '%s::%s' % (self.field_info(PT[1], t.attr)[0], t.attr)
+                except Exception:
+                    hint = None
+            if hint is not None:
+                acc['heap'].append(('fieldc', (t.attr, hint), sub(t.value)))
+            else:
+                acc['heap'].append(('field', t.attr, sub(t.value)))
             return
         if isinstance(t, ast.Subscript):
             k = t.slice.value if isinstance(t.slice, ast.Constant) and isinstance(t.slice.value, str) else None
@@ -861,6 +902,9 @@ class Verifier(Calls):
             if kind == 'all':
                 todo.append(('all', name, None))
                 continue
+            if kind == 'classwide':
+                todo.append(('classwide', name, None))
+                continue
             val = None
             if recv is not None:
                 names = {n.id for n in ast.walk(recv) if isinstance(n, ast.Name)}
@@ -878,9 +922,41 @@ class Verifier(Calls):
                 self.unmodelled.append('loop@L%d havocs the whole heap: %s' % (node.lineno, name))
                 self.havoc_all(st)
                 continue
+            if kind == 'classwide':
+                self.havoc_classwide(st, name, node)
+                continue
+            if kind == 'fieldc':
+                fld_, hint_ = name
+                alts_ = None
+                if val is not None:
+                    alts_ = [a for _, a in (val.alts if isinstance(val, VU) else [(TRUE, val)]) if not isinstance(a, VNone)]
+                if alts_ and len(alts_) == 1 and isinstance(alts_[0], VRef) and not isinstance(val, VU):
+                    kind, name = 'field', fld_
+                elif fresh_bound is None and region is None:
+                    self.havoc_classwide(st, hint_, node)
+                    continue
+                else:
+                    kind, name = 'field', fld_
             alts = None
             if val is not None:
                 alts = [a for _, a in (val.alts if isinstance(val, VU) else [(TRUE, val)]) if not isinstance(a, VNone)]
+            if kind == 'field' and val is not None and isinstance(val, VU) and alts and len(alts) > 1 and \
+                    all(isinstance(a, VRef) for a in alts) and fresh_bound is None and region is None:
+                # a receiver of several possible classes (`node: TokenElement|TokenGroup`): one conditional store per
+                # alternative instead of giving up every object's field of that name
+                for c_, a in val.alts:
+                    if not isinstance(a, VRef):
+                        continue
+                    owner, T = self.field_info(a.cls, name, node)
+                    nv = self.make_fresh(st, T, name)
+                    new = self.flatten(st, T, nv)
+                    for j, (sort, t1) in enumerate(zip(slots(T), new)):
+                        key = (owner, name, j)
+                        arr_ = self.harr(st, key, sort)
+                        # the other alternatives keep the raw slot (no re-normalised copy of the current value)
+                        self.hset(st, key, z3.Store(arr_, a.t, ITE(c_, t1, z3.Select(arr_, a.t))))
+                    exempt.append(a.t)
+                continue
             if kind == 'field':
                 if alts and all(isinstance(a, VRef) for a in alts) and len(alts) == 1:
                     a = alts[0]
@@ -911,12 +987,14 @@ class Verifier(Calls):
                 elif alts and len(alts) == 1 and isinstance(alts[0], VRec):
                     rv = alts[0]
                     for k2, T in self.rec_fields(rv.name).items():
-                        if name is not None and k2 != name:
+                        if kind == 'item' and name is not None and k2 != name:
                             continue        # d['key'] = ... writes one key only
                         self.rec_store(st, rv, k2, self.make_fresh(st, parse_type(T), k2))
                     exempt.append(rv.t)
                 elif fresh_bound is not None:
                     self.havoc_owned(st, fresh_bound)
+                elif kind == 'list' and isinstance(name, str) and '::' in name:
+                    self.havoc_classwide(st, name, node)
                 else:
                     self.unmodelled.append('loop@L%d: list write through an unknown receiver' % node.lineno)
                     self.havoc_all(st)
@@ -1231,9 +1309,20 @@ class Verifier(Calls):
         lists_ok = []
         probe = old.fork()
         probe.spec = True
+        wide_keys = set()
+        wide_lists = []
         for mexpr in c.modifies:
             mexpr = mexpr.strip()
             if mexpr == 'owned':
+                continue
+            if '::' in mexpr:
+                kind_, what_ = self.classwide_keys(mexpr, fn)
+                if kind_ == 'fields':
+                    wide_keys.update(k for k, _ in what_)
+                else:
+                    wide_lists.append(what_)
+                    for j in range(len(slots(what_))):
+                        wide_keys.add(self.items_key(what_, j))
                 continue
             if mexpr.endswith('[*]'):
                 v = self.ev1(self.parse_spec(mexpr[:-3]), probe)
@@ -1284,11 +1373,17 @@ class Verifier(Calls):
                 arr0 = self.harr(old, key, arr.sort().range())
             if arr.eq(arr0):
                 continue
+            if key in wide_keys:
+                continue
             r = fresh_int('fr')
             limit = old.alloc
             if owned_ok and s.owner_bound is not None:
                 limit = s.owner_bound     # closure: objects owned by the enclosing call may be modified
-            cond = AND(r >= 1, r < limit, *([r != a for a in allowed.get(key, [])] +
+            extra = []
+            if key == LIST_LEN and wide_lists:
+                et0 = self.harr(old, LIST_ETYPE, IntS)
+                extra = [z3.Select(et0, r) != etype_id(T_) for T_ in wide_lists]
+            cond = AND(r >= 1, r < limit, *([r != a for a in allowed.get(key, [])] + extra +
                                             [self.elem_not_member(g, r) for g in regions.get(key, [])]))
             goal = IMPL(cond, z3.Select(arr, r) == z3.Select(arr0, r))
             self.prove(s, goal, 'frame', fn, 'only %s modified; checked %s.%s' % (c.modifies or 'nothing', key[0], key[1]))
